@@ -14,6 +14,7 @@ PARTIAL: the model is at critical-section granularity; tokio scheduling, the rel
 height counters (start_block / in-mempool-since stamps may mix two heights) are outside it.
 -/
 import TeosVerif.Lemmas.Tower
+import TeosVerif.Lemmas.TowerInv
 
 namespace Teos.C10
 open Teos TxIndex
@@ -155,6 +156,25 @@ theorem second_identical_add_charges_nothing (s : Tower) (u : User) (k : Uuid) (
 lock; a top-up and a charge (that both succeed) give the same balance in either order -/
 theorem slot_updates_commute (s a d r : Nat) (hd : d ≤ s) :
     (s + a) - d = (s - d) + a ∧ (s + r) - d = (s - d) + r ∧ (s + a) + r = (s + r) + a := by omega
+
+/-- **resubmission_charged_once** (whole operation): `add_appointment` of an appointment whose row
+is already stored with the same blob length (the second of two identical submissions, whichever
+thread it runs on, once the first has left section A) is accepted, reports the balance unchanged,
+and leaves every user's in-memory record as it was — on both paths (untriggered / dispute in cache). -/
+theorem resubmission_charged_once (s : Tower) (node : Node) (signer : Option User) (loc : Loc)
+    (blob : Blob) (tsd usig : Nat) (u : User) (ui : UserInfo) (a : Appt)
+    (ha : authCheck s signer = .ok (u, ui)) (hnt : s.db.trackers (loc, u) = none)
+    (hrow : s.db.appts (loc, u) = some a) (hlen : a.blob.len = blob.len) :
+    (addAppointment s node signer loc blob tsd usig).2.1 = .accepted s.mem.wHeight usig ui.slots ui.expiry := by
+  have hu := authCheck_ok_mem s signer u ui ha
+  have h2 := second_identical_add_charges_nothing s u (loc, u) a ui hrow hu
+  rw [hlen] at h2
+  unfold addAppointment
+  simp only [ha, hnt, Option.isSome_none, Bool.false_eq_true, ↓reduceIte]
+  generalize hr : addUpdateAppointment s u (loc, u) blob.len = r at h2
+  obtain ⟨s1, o⟩ := r
+  simp only at h2
+  rw [h2.1]
 
 /-- `update_user` touches only the `users` table -/
 theorem updateUser_appts (d : Db) (u : User) (i : UserInfo) : (d.updateUser u i).appts = d.appts := by
